@@ -23,7 +23,9 @@ import (
 	"runtime"
 	"strings"
 	"sync"
+	"sync/atomic"
 	"testing"
+	"time"
 
 	"github.com/filecoin-project/go-f3/certs"
 	"github.com/filecoin-project/go-f3/certstore"
@@ -31,6 +33,11 @@ import (
 	"github.com/filecoin-project/go-f3/verifh/vkit"
 	"github.com/filecoin-project/go-f3/verifh/vstore"
 )
+
+// fullUpTo: histories up to this many certificates are observed completely after
+// every step; longer ones completely after every reopen/open attempt and every
+// 4th step, and by sampling (lightCompare) after the other steps.
+const fullUpTo = 20
 
 const realFrequency = 1440 // what the property text calls "the 1440-instance checkpoint boundary"
 
@@ -43,22 +50,24 @@ type subscriber struct {
 
 // seqCase is one sequential execution.
 type seqCase struct {
-	run   *vkit.Run
-	idx   int
-	seed  int64
-	g     *vstore.Gen
-	rng   *rand.Rand
-	freq  uint64 // lowered checkpoint frequency; 0 = accessor not used (real 1440)
-	first uint64
-	ds    *vstore.CrashDS
-	st    *certstore.Store
-	model *vstore.Model
-	chain *vstore.Chain
-	subs  []*subscriber
-	ops   []string // op log for the witness
-	kinds []byte   // op-kind letters, canonical description for distinct counting
-	step  int
-	light bool // long real-boundary run: sampled observation instead of full one at every step
+	run       *vkit.Run
+	idx       int
+	seed      int64
+	g         *vstore.Gen
+	rng       *rand.Rand
+	prng      *rand.Rand // drives the sampled observations only, so the operation sequence does not depend on them
+	freq      uint64     // lowered checkpoint frequency; 0 = accessor not used (real 1440)
+	first     uint64
+	ds        *vstore.CrashDS
+	st        *certstore.Store
+	model     *vstore.Model
+	chain     *vstore.Chain
+	subs      []*subscriber
+	ops       []string // op log for the witness
+	kinds     []byte   // op-kind letters, canonical description for distinct counting
+	step      int
+	forceFull bool // next comparison must be a complete observation
+	light     bool // long real-boundary run: sampled observation instead of full one at every step
 
 	crossed      int
 	rejected     int
@@ -104,6 +113,7 @@ func (c *seqCase) adopt(st *certstore.Store) {
 		certstore.VerifC09SetPowerTableFrequency(st, c.freq)
 	}
 	c.st = st
+	c.forceFull = true
 	c.subs = nil // subscriptions belong to the abandoned store object
 }
 
@@ -113,10 +123,11 @@ func (c *seqCase) compare(after string) {
 	if c.failed || c.st == nil {
 		return
 	}
-	if c.light {
+	if c.light || (c.model.Len() > fullUpTo && !c.forceFull && c.step%4 != 0) {
 		c.lightCompare(after)
 		return
 	}
+	c.forceFull = false
 	got, want := vstore.Observe(c.ctx, c.st, c.first), c.model.Observe()
 	c.count("full_observations", 1)
 	c.count("tables_compared", int64(len(want.Tables)))
@@ -163,7 +174,7 @@ func (c *seqCase) lightCompare(after string) {
 			return
 		}
 		for k := 0; k < 3; k++ {
-			i := c.first + uint64(c.rng.Int63n(int64(next-c.first)))
+			i := c.first + uint64(c.prng.Int63n(int64(next-c.first)))
 			if k == 0 {
 				i = next - 1
 			}
@@ -174,8 +185,8 @@ func (c *seqCase) lightCompare(after string) {
 			}
 			c.count("certificates_compared", 1)
 		}
-		a := c.first + uint64(c.rng.Int63n(int64(next-c.first)))
-		b := min(a+uint64(c.rng.Intn(40)), next-1)
+		a := c.first + uint64(c.prng.Int63n(int64(next-c.first)))
+		b := min(a+uint64(c.prng.Intn(40)), next-1)
 		got, err := c.st.GetRange(c.ctx, a, b)
 		want, _ := c.model.Range(a, b)
 		if err != nil || len(got) != len(want) {
@@ -205,7 +216,7 @@ func (c *seqCase) lightCompare(after string) {
 		}
 	}
 	for k := 0; k < 2; k++ {
-		set[c.first+uint64(c.rng.Int63n(int64(next-c.first+1)))] = struct{}{}
+		set[c.first+uint64(c.prng.Int63n(int64(next-c.first+1)))] = struct{}{}
 	}
 	for i := range set {
 		t, err := c.st.GetPowerTable(c.ctx, i)
@@ -260,6 +271,34 @@ func (c *seqCase) create() {
 	c.compare("create")
 }
 
+// seqAbort is set once a writer was found blocked: every other case would block
+// the same way, one watchdog period each.
+var seqAbort atomic.Bool
+
+const putWatchdog = 20 * time.Second
+
+// put calls Store.Put under a watchdog: sequentially a Put can only fail to
+// return if the writer is blocked (on a subscriber that does not read).
+func (c *seqCase) put(cert *certs.FinalityCertificate) (err error, returned bool) {
+	done := make(chan error, 1)
+	st := c.st
+	go func() { done <- st.Put(c.ctx, cert) }()
+	select {
+	case err := <-done:
+		return err, true
+	case <-time.After(putWatchdog):
+	}
+	if blocked, dump := blockedInPut(); blocked {
+		c.violate("C09 seq: writer blocked: Put parked in a channel send to a subscriber", dump)
+	} else {
+		c.run.Count("watchdog_stalls_not_in_put_send", 1)
+		c.run.Inconclusive("watchdog")
+		c.failed = true
+	}
+	seqAbort.Store(true)
+	return nil, false
+}
+
 func (c *seqCase) putValid() {
 	next := c.chain.HeadTable()
 	changed := c.rng.Intn(10) < 6
@@ -275,9 +314,12 @@ func (c *seqCase) putValid() {
 		panic("c09: model-derived table differs from the generator's intended table")
 	}
 	c.chain.Append(cert, next)
-	err := c.st.Put(c.ctx, cert)
+	err, returned := c.put(cert)
 	c.logf("Put(valid successor %d, table changed=%v, %d members) -> %v", cert.GPBFTInstance, changed, len(next), err)
 	c.kinds = append(c.kinds, 'p')
+	if !returned {
+		return
+	}
 	if err != nil {
 		c.violate("C09 seq: valid immediate successor was refused", fmt.Sprintf("instance %d: %v", cert.GPBFTInstance, err))
 		return
@@ -309,9 +351,12 @@ func (c *seqCase) putBad() {
 	if out == vstore.PutAccept {
 		panic("c09: a bad variant is acceptable to the model: " + v.String())
 	}
-	err := c.st.Put(c.ctx, cert)
+	err, returned := c.put(cert)
 	c.logf("Put(%s, instance %d; model: %s %s) -> %v", v, cert.GPBFTInstance, out, why, err)
 	c.kinds = append(c.kinds, byte('a'+int(v)))
+	if !returned {
+		return
+	}
 	c.count("puts_"+v.String(), 1)
 	switch out {
 	case vstore.PutReject:
@@ -580,7 +625,7 @@ func (c *seqCase) wrongOpen() {
 }
 
 func (c *seqCase) runSteps(n int) {
-	for c.step = 1; c.step <= n && !c.failed; c.step++ {
+	for c.step = 1; c.step <= n && !c.failed && !seqAbort.Load(); c.step++ {
 		x := c.rng.Intn(100)
 		switch {
 		case x < 38:
@@ -637,7 +682,7 @@ func pickFirst(rng *rand.Rand, freq uint64, maxPuts uint64) uint64 {
 func newSeqCase(run *vkit.Run, i int) *seqCase {
 	seed := run.SubSeed(int64(i))
 	g := vstore.NewGen(seed)
-	return &seqCase{run: run, idx: i, seed: seed, g: g, rng: g.Rand(), ds: vstore.NewCrashDS(), model: vstore.NewModel(),
+	return &seqCase{run: run, idx: i, seed: seed, g: g, rng: g.Rand(), prng: rand.New(rand.NewSource(seed ^ 0x5bd1e995)), ds: vstore.NewCrashDS(), model: vstore.NewModel(),
 		ctx: context.Background(), localCounts: map[string]int64{}}
 }
 
@@ -669,7 +714,7 @@ func realCase(run *vkit.Run, i int) *seqCase {
 		target = c.first + 2*realFrequency + 3
 	}
 	c.create()
-	for c.step = 1; !c.failed && c.model.Next() < target; c.step++ {
+	for c.step = 1; !c.failed && !seqAbort.Load() && c.model.Next() < target; c.step++ {
 		next := c.model.Next()
 		dist := min(next%realFrequency, realFrequency-next%realFrequency) // distance to the nearest boundary
 		x := c.rng.Intn(1000)
@@ -723,8 +768,8 @@ func realCase(run *vkit.Run, i int) *seqCase {
 func TestCheck(t *testing.T) {
 	run := vkit.New("C09", "seq", "exploration")
 	nReal := run.N(1, 20)
-	nLow := run.N(300, 30000)
-	run.SetRule("each evaluation is one seeded sequence of 30-400 operations (create, put of a valid successor with changed/unchanged table, put of 11 inadmissible/stale variants, get, range, power-table probes, subscribe/unsubscribe, reopen with OpenStore/OpenOrCreateStore, refused open/create attempts) on a real certstore.Store, every observable compared with the reference model after every step; checkpoint frequency lowered to 2/3/5/7 through the accessor, plus real-frequency runs (no accessor) crossing a multiple of 1440 twice; distinct = distinct (frequency, first-instance, operation-kind sequence); non-trivial = the sequence crossed a checkpoint boundary, had a refused put and a reopen")
+	nLow := run.N(300, 10000)
+	run.SetRule("each evaluation is one seeded sequence of 30-400 operations (create, put of a valid successor with changed/unchanged table, put of 11 inadmissible/stale variants, get, range, power-table probes, subscribe/unsubscribe, reopen with OpenStore/OpenOrCreateStore, refused open/create attempts) on a real certstore.Store, every observable compared with the reference model after every step (complete observation while <= 20 certificates are stored, after every (re)open and every 4th step; head, random certificates, a range window and the tables around the head and the nearest checkpoint after the other steps); checkpoint frequency lowered to 2/3/5/7 through the accessor, plus real-frequency runs (no accessor) crossing a multiple of 1440 twice; distinct = distinct (frequency, first-instance, operation-kind sequence); non-trivial = the sequence crossed a checkpoint boundary, had a refused put and a reopen")
 	run.Assume("the initial power table handed to the store is in canonical order (power descending, id ascending), as go-f3 produces it",
 		"the lowered checkpoint frequency is set through an injected accessor right after every open; where it does not divide 1440 the sequence stays clear of multiples of 1440 because the open functions derive the head table with the built-in frequency",
 		"certificates are signed with the harness stand-in scheme (certstore.Put does not verify signatures)",
@@ -765,7 +810,9 @@ func TestCheck(t *testing.T) {
 	} else {
 		vkit.Parallel(nReal+nLow, runtime.GOMAXPROCS(0), body)
 		// floors
-		if nontrivial*2 < int64(nLow) || crossedTotal == 0 || run.Counter("real_1440_boundaries_crossed") < int64(2*nReal) {
+		if seqAbort.Load() {
+			// a blocked writer was reported (or an unexplained stall made the run inconclusive)
+		} else if nontrivial*2 < int64(nLow) || crossedTotal == 0 || run.Counter("real_1440_boundaries_crossed") < int64(2*nReal) {
 			if run.Violations() == 0 {
 				run.Inconclusive("too-few-events")
 			}
